@@ -222,6 +222,81 @@ theorem readerChunkBounds_none (sizes : List Nat) (rate : Rat) (hr : rate ≤ 1/
   simp only []
   rw [if_pos (by omega)]
 
+/-! ### how much the compressed iterator hands out at once -/
+
+theorem gaps_adjacent (cs : Nat) : ∀ (l : List Nat), gapsLe cs l = true →
+    ∀ k, k + 1 < l.length → l.getD (k + 1) 0 ≤ l.getD k 0 + cs := by
+  intro l
+  induction l with
+  | nil => intro _ k hk; simp at hk
+  | cons a t ih =>
+    intro hg k hk
+    cases t with
+    | nil => simp at hk
+    | cons b t' =>
+      simp only [gapsLe, Bool.and_eq_true, decide_eq_true_eq] at hg
+      cases k with
+      | zero => simp; omega
+      | succ k =>
+        have := ih hg.2 k (by simpa using hk)
+        simpa using this
+
+theorem gaps_span (cs : Nat) (l : List Nat) (hg : gapsLe cs l = true) :
+    ∀ d i, i + d < l.length → l.getD (i + d) 0 ≤ l.getD i 0 + d * cs := by
+  intro d
+  induction d with
+  | zero => intro i _; simp
+  | succ d ih =>
+    intro i h
+    have h1 := ih i (by omega)
+    have h2 := gaps_adjacent cs l hg (i + d) (by omega)
+    rw [show i + (d + 1) = i + d + 1 by omega, Nat.succ_mul]
+    omega
+
+theorem mtsBatch_span (bs nc b : Nat) (hb : bs * b < nc) :
+    (mtsBatch bs nc b).1 ≤ (mtsBatch bs nc b).2 ∧ (mtsBatch bs nc b).2 + 1 ≤ nc ∧
+      (mtsBatch bs nc b).2 - (mtsBatch bs nc b).1 ≤ bs := by
+  simp only [mtsBatch, Nat.mul_succ]
+  omega
+
+theorem iterMtsIdx_spans (bs nc : Nat) (hbs : 0 < bs) (hnc : 1 ≤ nc) :
+    ∀ p ∈ iterMtsIdx bs nc, p.1 ≤ p.2 ∧ p.2 ≤ nc ∧ p.2 - p.1 ≤ bs := by
+  obtain ⟨f1, _, f3⟩ := nBatches_facts bs nc hbs hnc
+  have hbt : ∀ p ∈ (List.range (nBatches bs nc)).map (mtsBatch bs nc),
+      p.1 ≤ p.2 ∧ p.2 + 1 ≤ nc ∧ p.2 - p.1 ≤ bs := by
+    intro p hp
+    obtain ⟨b, hb, rfl⟩ := List.mem_map.1 hp
+    rw [List.mem_range] at hb
+    apply mtsBatch_span
+    have : bs * b ≤ bs * (nBatches bs nc - 1) := Nat.mul_le_mul_left _ (by omega)
+    omega
+  intro p hp
+  unfold iterMtsIdx at hp
+  simp only [] at hp
+  split at hp
+  · simp at hp
+  · rename_i l hl
+    rcases List.mem_append.1 hp with h | h
+    · have := hbt p h; omega
+    · have hlm := hbt l (List.mem_of_getLast? hl)
+      have : p = (l.2, l.2 + 1) := by simpa using h
+      subst this
+      simp only
+      omega
+
+/-- no interval of the compressed iterator is longer than `batch_size` chunk lengths -/
+theorem iterChunksMts_len_le (bs cs : Nat) (hbs : 0 < bs) (cb : List Nat) (hg : gapsLe cs cb = true)
+    (hlen : 2 ≤ cb.length) : ∀ p ∈ iterChunksMts bs cb, p.2 - p.1 ≤ bs * cs := by
+  intro p hp
+  unfold iterChunksMts at hp
+  obtain ⟨ij, hij, rfl⟩ := List.mem_map.1 hp
+  obtain ⟨h1, h2, h3⟩ := iterMtsIdx_spans bs (cb.length - 1) hbs (by omega) ij hij
+  have hs := gaps_span cs cb hg (ij.2 - ij.1) ij.1 (by omega)
+  rw [show ij.1 + (ij.2 - ij.1) = ij.2 by omega] at hs
+  have hm : (ij.2 - ij.1) * cs ≤ bs * cs := Nat.mul_le_mul_right _ h3
+  simp only
+  omega
+
 /-! ### `chunk_bounds` for data of any type -/
 
 theorem chunkBounds_good (n cs ov : Int) (hn : 0 ≤ n) (hcs : 0 < cs) (hov0 : 0 ≤ ov) (hov : ov < cs) :
